@@ -91,6 +91,9 @@ func LoadProg(repo, cfgName string, tags string, cs *Contracts) (*Prog, error) {
 }
 
 func FuncKey(fn *ssa.Function) string {
+	if strings.HasPrefix(fn.Name(), "init#") || fn.Synthetic == "package initializer" {
+		return fn.String()
+	}
 	if o, ok := fn.Object().(*types.Func); ok && o != nil {
 		return o.FullName()
 	}
